@@ -29,9 +29,67 @@ package isolation
 //@     invariant[prefix-admits] forall k Int :: 0 <= k && k < #i && rs[k].MetricType == Concurrency ==> cur + ctx.Input.BatchCount <= rs[k].Threshold
 
 //@ func getRulesOfResource(res) r
-//@   props C04
+//@   props C04, C13
 //@   ensures[copy] len(r) == len(ruleMap[res]) && (forall k Int :: 0 <= k && k < len(r) ==> r[k] == ruleMap[res][k])
 //@   modifies nothing
 //@   loop 1:
 //@     invariant[copied] len(ret) == #i && #i <= len(resRules) && fresh(base(ret)) && (forall k Int :: 0 <= k && k < #i ==> ret[k] == resRules[k])
 //@     invariant[frame] frame()
+
+// ---- C13: only valid, latest-loaded rules are in force
+//@ spec func validRule(r) = r != nil && len(r.Resource) > 0 && r.MetricType == Concurrency && r.Threshold != 0
+
+//@ func IsValidRule(r) err
+//@   props C13
+//@   ensures[iff] err == nil <==> validRule(r)
+//@   modifies nothing
+
+// per-resource load: the enforced list is exactly the valid rules of the given list, in order (rule k, if valid,
+// sits at position countTrue(valid, k)); nothing is lost, nothing invalid gets in, other resources are untouched
+//@ func onResourceRuleUpdate(res, rawResRules) err
+//@   props C13
+//@   requires ruleMap != nil && currentRules != nil && ruleMap != currentRules
+//@   let n = len(rawResRules)
+//@   let pick = seqof(k, 0 <= k && k < len(rawResRules) && validRule(rawResRules[k]))
+//@   panics never
+//@   ensures[never-fails] err == nil
+//@   ensures[enforced-count] len(ruleMap[res]) == countTrue(pick, n)
+//@   ensures[enforced-in-order] forall k Int :: 0 <= k && k < n && sel(pick, k) ==> ruleMap[res][countTrue(pick, k)] == rawResRules[k]
+//@   ensures[absent-when-none-valid] countTrue(pick, n) == 0 <==> !has(ruleMap, res)
+//@   ensures[other-resources-untouched] forall s Str :: s != res ==> has(ruleMap, s) == old(has(ruleMap, s)) && ruleMap[s] == old(ruleMap[s])
+//@   ensures[raw-recorded] currentRules[res] == rawResRules
+//@   modifies mapof(ruleMap), mapof(currentRules)
+//@   loop 1:
+//@     invariant[length] len(validResRules) == countTrue(pick, #i) && fresh(base(validResRules)) && 0 <= countTrue(pick, #i)
+//@     invariant[positions] forall k Int :: 0 <= k && k < #i && sel(pick, k) ==> 0 <= countTrue(pick, k) && countTrue(pick, k) < len(validResRules)
+//@     invariant[placed] forall k Int :: 0 <= k && k < #i && sel(pick, k) ==> validResRules[countTrue(pick, k)] == rawResRules[k]
+//@     invariant[frame] frame()
+
+//@ func LoadRulesOfResource(res, rules) (changed, err)
+//@   props C13
+//@   requires ruleMap != nil && currentRules != nil && ruleMap != currentRules
+//@   let n = len(rules)
+//@   let pick = seqof(k, 0 <= k && k < len(rules) && validRule(rules[k]))
+//@   panics never
+//@   ensures[empty-resource-rejected] len(res) == 0 ==> err != nil && !changed && frame()
+//@   ensures[clear] len(res) > 0 && n == 0 ==> changed && err == nil && !has(ruleMap, res) && !has(currentRules, res)
+//@   ensures[identical-reload-unchanged] len(res) > 0 && n > 0 && old(currentRules[res]) == rules ==> !changed && err == nil && frame()
+//@   ensures[loaded] len(res) > 0 && n > 0 && changed ==> err == nil && len(ruleMap[res]) == countTrue(pick, n) && (forall k Int :: 0 <= k && k < n && sel(pick, k) ==> ruleMap[res][countTrue(pick, k)] == rules[k]) && currentRules[res] == rules
+//@   ensures[other-resources-untouched] forall s Str :: s != res ==> has(ruleMap, s) == old(has(ruleMap, s)) && ruleMap[s] == old(ruleMap[s])
+//@   modifies mapof(ruleMap), mapof(currentRules)
+
+//@ func ClearRulesOfResource(res) err
+//@   props C13
+//@   requires ruleMap != nil && currentRules != nil && ruleMap != currentRules
+//@   panics never
+//@   ensures[cleared] len(res) > 0 ==> err == nil && !has(ruleMap, res) && !has(currentRules, res)
+//@   ensures[other-resources-untouched] forall s Str :: s != res ==> has(ruleMap, s) == old(has(ruleMap, s)) && ruleMap[s] == old(ruleMap[s])
+//@   modifies mapof(ruleMap), mapof(currentRules)
+
+// whole-set load: grouping by resource must cope with any element, including nil
+//@ func LoadRules(rules) (changed, err)
+//@   props C13
+//@   requires ruleMap != nil && currentRules != nil && ruleMap != currentRules
+//@   panics never
+//@   witness n = len(rules)
+//@   replay loadrules_nil
